@@ -4,6 +4,7 @@ import (
 	"bytes"
 	"errors"
 	"fmt"
+	"io"
 	"time"
 
 	"github.com/lxzan/gws"
@@ -317,6 +318,30 @@ func runC05(c *Ctx) error {
 				}
 			}
 		}
+		// directed histories.  (h1) frames that go out UNCOMPRESSED through a Broadcaster (a ping, a data payload below the
+		// threshold) followed by a message that repeats their content: nothing of them may be in the sender's LZ77 history
+		{
+			hb := []byte("heartbeat " + string(textPayload(c, 90, nil)))
+			small := []byte("status: " + string(textPayload(c, 40, nil)))
+			send(sendOp{API: "broadcast", Opcode: 9, Slices: [][]byte{hb}}, "h1-broadcast-ping")
+			send(sendOp{API: "broadcast", Opcode: 1, Slices: [][]byte{small}}, "h1-broadcast-small")
+			rep := append(append(append([]byte("last "), hb...), small...), hb...)
+			send(sendOp{API: "message", Opcode: 1, Slices: [][]byte{rep}}, "h1-repeat")
+			send(sendOp{API: "broadcast", Opcode: 1, Slices: [][]byte{append([]byte("again "), rep...)}}, "h1-repeat-broadcast")
+		}
+		// (h2) redundancy further back than a small negotiated window but well inside 32 KiB, through every path that owns a
+		// compressor (the pooled one, the streaming one): a back-reference beyond the window the peer keeps is undecodable there
+		{
+			a := randBytes(c.Rng, 400)
+			far := append(append(append([]byte{}, a...), randBytes(c.Rng, 6000)...), a...)
+			send(sendOp{API: "message", Opcode: 2, Slices: [][]byte{far}}, "h2-far-message")
+			send(sendOp{API: "file", Opcode: 2, Reader: newChunkReader([][]byte{far[:3000], far[3000:]}, "sep")}, "h2-far-file")
+			send(sendOp{API: "file", Opcode: 2, Reader: newChunkReader([][]byte{far}, "with")}, "h2-far-file-again")
+			send(sendOp{API: "broadcast", Opcode: 2, Slices: [][]byte{far}}, "h2-far-broadcast")
+		}
+		// (h3) a streamed send whose reader is slow between two chunks while other goroutines write: whatever the
+		// schedule, the streamed message's frames stay together (RFC 6455 5.4: no other data frame between the fragments)
+		c05StreamWithIntruders(c, si, spec)
 		// content that must be rejected: a rejected call also fails the connection (emitError), so each on a fresh one
 		rejects := []sendOp{
 			{API: "message", Opcode: 1, Slices: [][]byte{{0xff, 0xfe, 'a'}}},
@@ -440,4 +465,101 @@ func newChunkReader(chunks [][]byte, mode string) *chunkReader {
 	}
 	r.orig = append([][]byte(nil), r.chunks...)
 	return r
+}
+
+// gatedReader returns its chunks one per Read; before chunk k (k >= 1) it signals `between` and waits for `resume`.
+type gatedReader struct {
+	chunks  [][]byte
+	i       int
+	between chan struct{}
+	resume  chan struct{}
+	stalled bool
+}
+
+func (g *gatedReader) Read(p []byte) (int, error) {
+	if g.i >= len(g.chunks) {
+		return 0, io.EOF
+	}
+	if g.i == 1 && !g.stalled {
+		g.stalled = true
+		close(g.between)
+		select {
+		case <-g.resume:
+		case <-time.After(5 * time.Second):
+		}
+	}
+	n := copy(p, g.chunks[g.i])
+	g.chunks[g.i] = g.chunks[g.i][n:]
+	if len(g.chunks[g.i]) == 0 {
+		g.i++
+	}
+	return n, nil
+}
+
+func c05StreamWithIntruders(c *Ctx, si int, spec connSpec) {
+	if spec.WLimit > 0 && spec.WLimit < 200000 {
+		return // the segments of this scenario are above that write limit: the send is (rightly) refused at its first segment
+	}
+	for _, intruder := range []string{"message", "writev", "async", "broadcast", "file"} {
+		conn, tap, err := spec.open(&recHandler{})
+		if err != nil {
+			c.oracleFail("open: "+err.Error(), "setup", nil)
+			return
+		}
+		tag := fmt.Sprintf("spec=%d server=%v pmd=%v streamed send with a slow reader, concurrent %s", si, spec.Server, spec.PMD, intruder)
+		// chunk sizes straddle the 128 KiB segment size, so that frames have gone out before the reader stalls
+		gr := &gatedReader{chunks: [][]byte{randBytes(c.Rng, 140000), randBytes(c.Rng, 140000), randBytes(c.Rng, 5000)}, between: make(chan struct{}), resume: make(chan struct{})}
+		fileDone := make(chan error, 1)
+		nb := tap.numWrites()
+		go func() { fileDone <- conn.WriteFile(gws.OpcodeBinary, gr) }()
+		select {
+		case <-gr.between:
+		case <-time.After(5 * time.Second):
+			c.oracleFail("the streamed send never asked its reader for the second chunk ["+tag+"]", "stream-hang", map[string]any{"tag": tag})
+			continue
+		}
+		otherDone := make(chan struct{})
+		go func() {
+			defer close(otherDone)
+			doSend(conn, tap, sendOp{API: intruder, Opcode: 2, Slices: [][]byte{[]byte("written by another goroutine")},
+				Reader: map[bool]*chunkReader{true: newChunkReader([][]byte{[]byte("streamed by another goroutine")}, "sep")}[intruder == "file"]})
+		}()
+		select { // give the other writer time to reach (and, if nothing stops it, pass) the write lock
+		case <-otherDone:
+		case <-time.After(30 * time.Millisecond):
+		}
+		close(gr.resume)
+		var ferr error
+		select {
+		case ferr = <-fileDone:
+		case <-time.After(10 * time.Second):
+			c.oracleFail("the streamed send did not return ["+tag+"]", "stream-hang", map[string]any{"tag": tag})
+			continue
+		}
+		select {
+		case <-otherDone:
+		case <-time.After(10 * time.Second):
+			c.oracleFail("the concurrent write did not return ["+tag+"]", "stream-hang", map[string]any{"tag": tag})
+			continue
+		}
+		fs, rest, perr := parseFrames(joinSlices(tap.writeCalls()[nb:]))
+		problem := ""
+		if perr != nil || len(rest) != 0 {
+			problem = "the bytes on the wire are not whole frames"
+		} else if _, p := groupMessages(fs); p != "" {
+			problem = p
+		}
+		if ferr != nil {
+			problem = "the streamed send failed: " + ferr.Error()
+		}
+		if problem != "" {
+			var seq []string
+			for _, f := range fs {
+				seq = append(seq, fmt.Sprintf("op%d/fin=%v/%d", f.Opcode, f.Fin, len(f.Payload)))
+			}
+			c.oracleFail(fmt.Sprintf("a streamed message is not one run of frames on the wire: %s; frames %v [%s]", problem, seq, tag), "outbound-malformed", map[string]any{"tag": tag, "frames": seq})
+		}
+		_ = tap.Close()
+		c.count(tag, true, "api=file-with-concurrent-"+intruder)
+	}
 }
